@@ -286,6 +286,81 @@ macro_rules! multi_job {
 multi_job!(multi_local, MultiSubscription<'static>, BoxSubscription, "MultiSubscription");
 multi_job!(multi_threads, MultiSubscriptionThreads, BoxSubscriptionThreads, "MultiSubscriptionThreads");
 
+/// the shared-cell subscription (`MutRc<Option<U>>` / `MutArc<Option<U>>`: what
+/// debounce, throttle and the flattening operators keep their task / inner
+/// handles in, and a public `Subscription` in its own right): clones are handles
+/// to the same subscription
+macro_rules! cell_job {
+  ($fname:ident, $rc:ident, $label:expr) => {
+    fn $fname(len: usize) -> Job {
+      use rxrust::rc::$rc;
+      Job::new(format!("{}<Option<child>> ops L{len}", $label), move |ch, obs| {
+        let _w = world::World::new();
+        let child = Ctl::default();
+        let mut handles: Vec<Option<$rc<Option<Ctl>>>> = vec![Some($rc::own(Some(child.clone())))];
+        let mut unsubscribed = false;
+        let mut hist: Vec<String> = vec![];
+        for _ in 0..len {
+          let mut menu: Vec<(&str, usize)> = vec![];
+          for (k, h) in handles.iter().enumerate() {
+            if h.is_some() {
+              menu.push(("unsubscribe", k));
+              if handles.len() < 3 {
+                menu.push(("clone", k));
+              }
+            }
+          }
+          if menu.is_empty() {
+            break;
+          }
+          let (act, k) = menu[ch.choose(menu.len())];
+          ch.label(|| format!("{act}({k})"));
+          hist.push(format!("{act}({k})"));
+          match act {
+            "clone" => {
+              let c = handles[k].as_ref().unwrap().clone();
+              handles.push(Some(c));
+            }
+            _ => {
+              handles[k].take().unwrap().unsubscribe();
+              unsubscribed = true;
+            }
+          }
+          obs.checks += 1;
+          if unsubscribed && !child.unsubscribed.load(Ordering::SeqCst) {
+            obs.fail(
+              format!("c17:cell-child-left-running:{}", $label),
+              format!("after [{}]: unsubscribe() through a handle did not unsubscribe the subscription in the cell", hist.join(" ")),
+            );
+          }
+          for (j, h) in handles.iter().enumerate() {
+            if let Some(h) = h {
+              if h.is_closed() != unsubscribed {
+                obs.fail(
+                  format!("c17:cell-handle-closed-state:{}", $label),
+                  format!(
+                    "after [{}]: handle {j} reports closed = {}, the subscription was {}unsubscribed through another handle",
+                    hist.join(" "),
+                    h.is_closed(),
+                    if unsubscribed { "" } else { "not " }
+                  ),
+                );
+              }
+            }
+          }
+          if !obs.viol.is_empty() {
+            break;
+          }
+        }
+        obs.delivered = 1;
+        obs.note_outcome(&(unsubscribed, handles.len()));
+      })
+    }
+  };
+}
+cell_job!(cell_local, MutRc, "MutRc");
+cell_job!(cell_threads, MutArc, "MutArc");
+
 fn zip_job(len: usize) -> Job {
   Job::new(format!("ZipSubscription ops L{len}"), move |ch, obs| {
     let _w = world::World::new();
@@ -393,13 +468,15 @@ pub fn plan(tier: Tier) -> Plan {
   jobs.push(multi_local(clen));
   jobs.push(multi_threads(clen));
   jobs.push(zip_job(4));
+  jobs.push(cell_local(5));
+  jobs.push(cell_threads(5));
   Plan {
     jobs,
     finish: Finish {
       prop: "C17".into(),
       tier: tier_name(tier),
       engine: "E1 opseq".into(),
-      rule: "pipeline part: the C01 pipeline generator (every subscription type occurs: unit, subscriber, pair, composite, task handle, ref-count, finalizer, boxed) x every action history up to the length bound over input events (+ tick) with unsubscribe available at every position; is_closed() is sampled after every action: never true then false, and no notification is delivered after it returned true. composite part: every sequence up to the length bound over {append(live child) via either handle, child finishes, retain, clone, unsubscribe via a clone} on MultiSubscription / MultiSubscriptionThreads and {side finishes, unsubscribe} on ZipSubscription over controllable children; non-trivial = something was delivered / a child existed".into(),
+      rule: "pipeline part: the C01 pipeline generator (every subscription type occurs: unit, subscriber, pair, composite, task handle, ref-count, finalizer, boxed) x every action history up to the length bound over input events (+ tick) with unsubscribe available at every position; is_closed() is sampled after every action: never true then false, and no notification is delivered after it returned true. composite part: every sequence up to the length bound over {append(live child) via either handle, child finishes, retain, clone, unsubscribe via a clone} on MultiSubscription / MultiSubscriptionThreads and {side finishes, unsubscribe} on ZipSubscription over controllable children, and {clone, unsubscribe via any handle} on the shared-cell subscriptions MutRc/MutArc<Option<child>> (after unsubscribe every remaining handle reports closed and the child is torn down); non-trivial = something was delivered / a child existed".into(),
       bounds: json!({"chain_depth": depth, "history_len_chains": len, "history_len_two_input": len2, "composite_len": clen, "pipelines": n_pipes}),
       assumptions: vec![
         "an empty never-unsubscribed composite reporting closed and re-opening when a live child is appended is how a growing composite works and is not counted as `never again false`".into(),
